@@ -69,7 +69,9 @@ class C17(Prop):
                           policies=["natural@dup", "1@dup"]),
                     Layer("stack chains (<=5 push/pop steps, optional extra consumption rule)", e(GI.stack_chain_cases),
                           policies=["natural@dup", "1@dup"]),
-                    Layer("IG(<=2 rules) x regular", i(lambda: GI.ig_cases(1, 2)), rep=rep, policies=["natural@few"])]
+                    Layer("IG(<=2 rules) x regular (every 2nd grammar)",
+                          i(lambda: (c for k, c in enumerate(c2 for c2 in GI.ig_cases(1, 2) if GI.is_rep(c2)) if k % 2 == 0)),
+                          policies=["natural@few"])]
         return [Layer("IG(<=3 rules) all orders x all optim", e(lambda: GI.ig_cases(0, 3)), rep=rep,
                       policies=["natural@full", "1@full", "2@full", "s%d@full" % seed]),
                 Layer("IG(4 rules)", e(lambda: GI.ig_cases(4, 4)), rep=rep, policies=["natural", "1"]),
@@ -164,10 +166,12 @@ class C17(Prop):
         for k, text in enumerate(REGULAR):
             if slow:
                 return
+            if ctx.variant == "few" and k % 2:
+                continue        # quick: every second regular language
             nfa = RX.to_nfa(RX.parse(text))
             want_empty = not RI.intersect_regular(rg, nfa)
             for form in ("regex", "dfa", "enfa"):
-                if ctx.variant == "few" and form != "regex" and k % 3:
+                if ctx.variant == "few" and form != "regex" and k % 4:
                     continue
 
                 def operand():
@@ -183,7 +187,7 @@ class C17(Prop):
                 i = ctx.call(g.intersection, op.value)
                 if not ctx.returns(i, "C17.intersection", regular=text, form=form):
                     continue
-                ctx.horizon, keep = 1.0, ctx.horizon
+                ctx.horizon, keep = (0.5 if ctx.variant == "few" else 1.0), ctx.horizon
                 e = ctx.call(i.value.is_empty)
                 ctx.horizon = keep
                 if e.kind == "timeout":
